@@ -308,6 +308,17 @@ def w_daughter(name, m, t=(2, 0, 0), feats=(), small=False):
     return world(name, us, ["daughter"] + list(feats))
 
 
+def w_big_room():
+    # a 6x6x6 single-volume daughter (turned) so that interior points with safety 3 exist and
+    # move_internal(position) inside the safety sphere is exercised through a rotated level
+    d = unit("D", B(-4, 2, -4, 2, -4, 2), [mat("D.R", B(-4, 2, -4, 2, -4, 2))])
+    us = [None, d]
+    h = hole("G.h", 1, us, NAMED["rzp"], (-2, 0, 0))
+    g = B(-6, 2, -4, 2, -4, 2)
+    us[0] = unit("G", g, [h, mat("G.w", B(-6, -4, -4, 2, -4, 2))])
+    return world("big_room", us, ["daughter", "rotated-daughter", "coincident-daughter-faces", "safety-sphere"])
+
+
 def w_nested3():
     # three levels, different rotations; D2's hole touches D1's boundary on one side
     d2 = leaf_universe("D2")
@@ -407,7 +418,7 @@ def library():
     # ... and two with the hole strictly inside the world
     ws.append(w_daughter("rot_rzp_big", NAMED["rzp"], (2, 0, 0), ["rotated-daughter"]))
     ws.append(w_daughter("refl_cyc_big", NAMED["cyc"], (0, 0, 2), ["rotated-daughter"]))
-    ws += [w_nested3(), w_nested3b(), w_coincident(), w_array("array221", NAMED["id"], (0, 0, 0)),
+    ws += [w_big_room(), w_nested3(), w_nested3b(), w_coincident(), w_array("array221", NAMED["id"], (0, 0, 0)),
            w_array("array221_rot", NAMED["rxp"], (2, 0, 0)), w_adjacent()]
     return ws
 
